@@ -1,0 +1,15 @@
+//go:build !verif
+
+// Package vhook holds observation points for external verification tooling.
+// Without the "verif" build tag every hook is an empty, inlinable function and
+// On is a false constant, so guarded call sites compile to nothing.
+package vhook
+
+// On reports whether the hooks are compiled in.
+const On = false
+
+func IO(kind string, path string, off int64, n int, buf []byte) {}
+
+func FS(kind string, a string, b string) {}
+
+func Point(name string) {}
